@@ -36,7 +36,7 @@ class Ctx:
             else:
                 self.alt[sel] = crates
         for role in ('lib',):
-            if role not in self.crates:
+            if 'ws' in selections and role not in self.crates:
                 raise DumpError('no facts for the library crate (files: %s)' % self.meta)
         if need_fixture:
             d, meta = dump.fixture_dir('posctl')
